@@ -12,7 +12,7 @@ Definition TY_SENC : list N := [115; 101; 110; 99].
 Definition be16 (x : N) : list N := [x / 256 mod 256; x mod 256].
 
 (* SubSamplePattern: BytesOfClearData uint16, BytesOfProtectedData uint32 *)
-Definition subsample := (N * N)%type.
+Notation subsample := (N * N)%type (only parsing).
 
 Record senc := mkSenc {
   sn_version : N; sn_flags : N; sn_count : N; sn_ivsize : N;
